@@ -3,7 +3,7 @@ CONSTANTS
   MaxWithdrawalTx = 8
   Network = "signet"
   Debug = FALSE
-  Bind = {"v.deposits", "v.pubkey", "blockmsg", "withdrawals"}
+  Bind = {"v.deposits", "v.pubkey", "blockmsg", "withdrawals", "refunds"}
 INIT TInit
 NEXT TNext
 INVARIANTS CreditedOnce
